@@ -23,6 +23,8 @@ import (
 	"github.com/metrico/qryn/reader/model"
 	traceql_parser "github.com/metrico/qryn/reader/traceql/parser"
 	traceql_transpiler "github.com/metrico/qryn/reader/traceql/transpiler"
+	"github.com/metrico/qryn/reader/traceql/transpiler/clickhouse_transpiler"
+	sqlsel "github.com/metrico/qryn/reader/utils/sql_select"
 	"github.com/metrico/qryn/reader/utils/tables"
 
 	"verif/harness/engines/chsql"
@@ -583,4 +585,73 @@ func muteStderr() func() {
 		syscall.Close(saved)
 		null.Close()
 	}
+}
+
+// statementText renders the search statement the ClickHouse planner produces for a script text (parse, plan,
+// process, print), nothing is executed.
+func statementText(text string, rq *request, limit int64) (out string, err error) {
+	defer func() {
+		if p := recover(); p != nil {
+			err = fmt.Errorf("panic: %v", p)
+		}
+	}()
+	script, err := traceql_parser.Parse(text)
+	if err != nil {
+		return "", err
+	}
+	plan, err := clickhouse_transpiler.Plan(script)
+	if err != nil {
+		return "", err
+	}
+	sel, err := plan.Process(&shared.PlannerContext{IsCluster: rq.Cluster, From: time.Unix(rq.StartS, 0), To: time.Unix(rq.EndS, 0), Limit: limit,
+		TracesAttrsTable: "tempo_traces_attrs_gin", TracesAttrsDistTable: "tempo_traces_attrs_gin_dist", TracesTable: "tempo_traces",
+		TracesDistTable: "tempo_traces_dist", TracesKVTable: "tempo_traces_kv", TracesKVDistTable: "tempo_traces_kv_dist", VersionInfo: map[string]int64{}})
+	if err != nil {
+		return "", err
+	}
+	return sel.String(&sqlsel.Ctx{Params: map[string]sqlsel.SQLObject{}, Result: map[string]sqlsel.SQLObject{}})
+}
+
+// inCompany: the statement of a script must not depend on who else is planning the same text at the same moment.
+// Six clients plan and print the script forty times each, side by side, each with a limit of its own; every
+// statement must be the one a client planning alone gets for that limit. Returns the first difference.
+func inCompany(text string, rq *request) (diff string, planned int) {
+	const clients, rounds = 6, 40
+	want := make([]string, clients)
+	for k := range want {
+		w, err := statementText(text, rq, int64(rq.Limit+k))
+		if err != nil {
+			return "", 0 // not plannable alone: judged by the ordinary path
+		}
+		if again, err := statementText(text, rq, int64(rq.Limit+k)); err != nil || again != w {
+			return "", 0 // (a statement that differs from one sequential planning to the next is C14's subject)
+		}
+		want[k] = w
+	}
+	var wg sync.WaitGroup
+	var mu sync.Mutex
+	start := make(chan struct{})
+	for k := 0; k < clients; k++ {
+		wg.Add(1)
+		go func(k int) {
+			defer wg.Done()
+			<-start
+			for i := 0; i < rounds; i++ {
+				got, err := statementText(text, rq, int64(rq.Limit+k))
+				mu.Lock()
+				planned++
+				if diff == "" {
+					if err != nil {
+						diff = fmt.Sprintf("client %d round %d: %v (alone: a statement of %d bytes)", k, i, err, len(want[k]))
+					} else if got != want[k] {
+						diff = fmt.Sprintf("client %d round %d: statement differs from the one planned alone | in company: %s | alone: %s", k, i, clip(got, 700), clip(want[k], 700))
+					}
+				}
+				mu.Unlock()
+			}
+		}(k)
+	}
+	close(start)
+	wg.Wait()
+	return diff, planned
 }
